@@ -94,6 +94,8 @@ package rjson
 //@   ensures [C06] ok ==> forall(j, 0, utf8len(escrune(s, 0)), result[len(data)+j] == utf8b(escrune(s, 0), j))
 // ---------------------------------------------------------------- generated machines (safety layer)
 //@ func skipValue(data, stack) (p, stack1, err)
+//@   ensures [C19] len(stack1) >= len(stack)
+//@   candidates len(stack) >= len(old(stack))
 //@   candidates @alloc top <= p + 1
 //@   allocsite 16*p + 1024
 //@   input data
@@ -109,6 +111,8 @@ package rjson
 //@   ensures err == nil ==> 0 <= p && p <= len(data)
 //
 //@ func skipValueFast(data, stack) (p, stack1, err)
+//@   ensures [C19] len(stack1) >= len(stack)
+//@   candidates len(stack) >= len(old(stack))
 //@   candidates @alloc top <= p + 1
 //@   allocsite 16*p + 1024
 //@   input data
@@ -123,6 +127,8 @@ package rjson
 //@   ensures err == nil ==> 0 <= p && p <= len(data)
 //
 //@ func handleArrayValues(data, handler, stack) (p, stack1, err)
+//@   ensures [C19] len(stack1) >= len(stack)
+//@   candidates len(stack) >= len(old(stack))
 //@   candidates @alloc top <= p + 1
 //@   allocsite 16*p + 1024
 //@   input data
@@ -142,6 +148,8 @@ package rjson
 //@   ensures err == nil ==> 0 <= p && p <= len(data)
 //
 //@ func handleObjectValues(data, handler, stack) (p, stack1, err)
+//@   ensures [C19] len(stack1) >= len(stack)
+//@   candidates len(stack) >= len(old(stack))
 //@   candidates @alloc top <= p + 1
 //@   allocsite 16*p + 1024
 //@   input data
@@ -244,6 +252,7 @@ package rjson
 //@   ensures err == nil ==> 0 <= p && p <= len(data)
 // ---------------------------------------------------------------- public wrappers
 //@ func SkipValue(data, buffer) (p, err)
+//@   ensures [C19] buffer != nil ==> len(buffer.stackBuf) >= len(old(buffer.stackBuf))
 //@   input data
 //@   scratch buffer
 //@   sim value limit=10000 init=none
@@ -253,6 +262,7 @@ package rjson
 //@   ensures err == nil ==> 0 <= p && p <= len(data)
 //
 //@ func SkipValueFast(data, buffer) (p, err)
+//@   ensures [C19] buffer != nil ==> len(buffer.stackBuf) >= len(old(buffer.stackBuf))
 //@   input data
 //@   scratch buffer
 //@   sim value limit=10000 init=none
@@ -261,6 +271,7 @@ package rjson
 //@   ensures err == nil ==> 0 <= p && p <= len(data)
 //
 //@ func HandleArrayValues(data, handler, buffer) (p, err)
+//@   ensures [C19] buffer != nil ==> len(buffer.stackBuf) >= len(old(buffer.stackBuf))
 //@   input data
 //@   scratch buffer
 //@   sim travarr init=none
@@ -272,6 +283,7 @@ package rjson
 //@   ensures err == nil ==> 0 <= p && p <= len(data)
 //
 //@ func HandleObjectValues(data, handler, buffer) (p, err)
+//@   ensures [C19] buffer != nil ==> len(buffer.stackBuf) >= len(old(buffer.stackBuf))
 //@   input data
 //@   scratch buffer
 //@   sim travobj init=none
